@@ -303,82 +303,130 @@ Print Assumptions C11_variant_chain_series.
 (* ---------------------------------------------------------------------------------------------------------------------
    'never crashes with an internal error' over the WHOLE pipeline parse() -> emit(): the interpreter stack.
    parse() turns its own RecursionError into ValueError (_nesting_as_value_error); emit() recurses over the same block
-   tree without a wrapper.  Lang/NestDepth.v: frames each stage needs on a program tree, from constants per block slot and
-   per simple statement; Gen/NestDepth.v: those constants MEASURED on the current source (deepest frame of the real parse /
-   emit on ladders, linear fit re-checked, fail-closed).  [room] = frames the caller leaves - every theorem holds for every
-   room, i.e. for every recursion limit and every depth of the caller's own stack.
+   tree and - since the repair of F-C11-emit-stack-window - does the same.  Lang/NestDepth.v: frames each stage needs on a
+   program tree, from constants per block slot and per simple statement, and the outcome of the pipeline (0 firmware, 1 clean
+   ValueError from parse, 2 RecursionError from emit, 3 clean ValueError from emit) with [guarded] = emit() has the wrapper;
+   Gen/NestDepth.v: the constants MEASURED and the guard OBSERVED on the current source (deepest frame of the real parse /
+   emit on ladders, linear fit re-checked; the real emit() run with fewer frames than it needs; fail-closed).  [room] = frames
+   the caller leaves when it enters a stage - every theorem holds for every room, i.e. for every recursion limit and every
+   depth of the caller's own stack.
    --------------------------------------------------------------------------------------------------------------------- *)
 
-(* for EVERY pair of constant tables: when emit's prelude, frames per level and header constants are dominated by parse's,
-   emit needs no more frames than parse on every program tree whose simple statements are thin *)
+(* the outcome of the pipeline, for EVERY pair of constant tables, with and without the guard *)
+Theorem C11_pipeline_outcome_characterised : forall g ps es room p,
+  (pipeline g ps es room p = 0 <-> (need_prog ps p <= room /\ need_prog es p <= room)) /\
+  (pipeline g ps es room p = 1 <-> room < need_prog ps p) /\
+  (pipeline g ps es room p = 2 <-> (g = false /\ need_prog ps p <= room /\ room < need_prog es p)) /\
+  (pipeline g ps es room p = 3 <-> (g = true /\ need_prog ps p <= room /\ room < need_prog es p)).
+Proof. exact pipeline_cases. Qed.
+Print Assumptions C11_pipeline_outcome_characterised.
+
+(* an internal error exactly when emit() is unguarded and parse's need <= room < emit's need *)
+Theorem C11_stack_crash_iff_unguarded_window : forall g ps es room p,
+  pipeline g ps es room p = 2 <-> (g = false /\ need_prog ps p <= room /\ room < need_prog es p).
+Proof. exact pipeline_crash_iff. Qed.
+Print Assumptions C11_stack_crash_iff_unguarded_window.
+
+(* a guarded emit(): whatever the constants of the two stages are - every tree, every room - never an internal error *)
+Theorem C11_guarded_emit_never_crashes : forall ps es room p, pipeline true ps es room p <> 2.
+Proof. exact guarded_pipeline_clean. Qed.
+Print Assumptions C11_guarded_emit_never_crashes.
+
+(* the obligation on the CURRENT source: emit() is guarded (broken by removing or narrowing the wrapper of emit()) *)
+Theorem C11_emit_is_guarded_current_source : emit_guarded = true.
+Proof. exact nest_emit_guarded. Qed.
+Print Assumptions C11_emit_is_guarded_current_source.
+
+(* the statement the finding F-C11-emit-stack-window refuted, now without any guard on the program: on the current source the
+   pipeline never ends in an internal error - for every room and EVERY program tree (the four statements of the finding
+   included) *)
+Theorem C11_nesting_never_crashes_emit : forall room p, pipeline emit_guarded parse_stage emit_stage room p <> 2.
+Proof. exact nest_pipeline_clean. Qed.
+Print Assumptions C11_nesting_never_crashes_emit.
+
+Theorem C11_nesting_outcome_is_firmware_or_clean_rejection : forall room p,
+  pipeline emit_guarded parse_stage emit_stage room p = 0 \/ pipeline emit_guarded parse_stage emit_stage room p = 1
+  \/ pipeline emit_guarded parse_stage emit_stage room p = 3.
+Proof. exact nest_pipeline_outcomes. Qed.
+Print Assumptions C11_nesting_outcome_is_firmware_or_clean_rejection.
+
+(* the former window of the finding is a clean rejection by emit() *)
+Theorem C11_former_window_is_clean_rejection : forall room p,
+  need_prog parse_stage p <= room -> room < need_prog emit_stage p -> pipeline emit_guarded parse_stage emit_stage room p = 3.
+Proof. exact nest_window_rejects. Qed.
+Print Assumptions C11_former_window_is_clean_rejection.
+
+(* the guard changes the KIND of the failure and nothing else: the same scripts yield firmware, the same are rejected by
+   parse(), and the clean rejections by emit() are exactly the former crashes *)
+Theorem C11_guard_only_changes_the_kind : forall ps es room p,
+  (pipeline true ps es room p = 0 <-> pipeline false ps es room p = 0) /\
+  (pipeline true ps es room p = 1 <-> pipeline false ps es room p = 1) /\
+  (pipeline true ps es room p = 3 <-> pipeline false ps es room p = 2).
+Proof. exact guard_only_changes_the_kind. Qed.
+Print Assumptions C11_guard_only_changes_the_kind.
+
+(* which depths still yield firmware.  For EVERY pair of constant tables: when emit's prelude, frames per level and header
+   constants are dominated by parse's, emit needs no more frames than parse on every program tree whose simple statements
+   are thin - so everything parse() accepts is emitted *)
 Theorem C11_emit_stack_within_parse_stack : forall ps es, blocks_dominated ps es = true ->
   forall p, (forall l, In l (leaves_of_list p) -> thin ps es l = true) -> need_prog es p <= need_prog ps p.
 Proof. exact prog_dominated. Qed.
 Print Assumptions C11_emit_stack_within_parse_stack.
 
-Theorem C11_accepted_nesting_is_emitted : forall ps es, blocks_dominated ps es = true ->
-  forall room p, (forall l, In l (leaves_of_list p) -> thin ps es l = true) -> fits ps room p = true -> fits es room p = true.
-Proof. exact accepted_fits. Qed.
+Theorem C11_accepted_nesting_is_emitted : forall g ps es, blocks_dominated ps es = true ->
+  forall room p, (forall l, In l (leaves_of_list p) -> thin ps es l = true) -> fits ps room p = true -> pipeline g ps es room p = 0.
+Proof. exact accepted_yields_firmware. Qed.
 Print Assumptions C11_accepted_nesting_is_emitted.
 
-(* the pipeline crashes exactly in the window parse's need <= room < emit's need *)
-Theorem C11_stack_crash_iff_window : forall ps es room p,
-  pipeline ps es room p = 2 <-> (need_prog ps p <= room /\ room < need_prog es p).
-Proof. exact pipeline_crash_iff. Qed.
-Print Assumptions C11_stack_crash_iff_window.
+(* ... in particular on the current source (dominance of the measured tables is a hypothesis here, reported by the harness
+   from the extracted model - with a guarded emit() a deeper emitter costs accepted depth, not cleanliness, so it is no
+   longer an obligation) *)
+Theorem C11_accepted_nesting_is_emitted_current_source : blocks_dominated parse_stage emit_stage = true ->
+  forall room p, (forall l, In l (leaves_of_list p) -> thin parse_stage emit_stage l = true) ->
+  fits parse_stage room p = true -> pipeline emit_guarded parse_stage emit_stage room p = 0.
+Proof. exact nest_accepted_yields_firmware. Qed.
+Print Assumptions C11_accepted_nesting_is_emitted_current_source.
 
-(* the obligation on the CURRENT source (broken by a refactoring that raises emit's frames per level or a header constant) *)
-Theorem C11_emit_frames_dominated_current_source : blocks_dominated parse_stage emit_stage = true.
-Proof. exact nest_blocks_dominated. Qed.
-Print Assumptions C11_emit_frames_dominated_current_source.
+Theorem C11_enough_room_yields_firmware : forall g ps es p room,
+  need_prog ps p <= room -> need_prog es p <= room -> pipeline g ps es room p = 0.
+Proof. exact enough_room_yields_firmware. Qed.
+Print Assumptions C11_enough_room_yields_firmware.
 
-(* the simple statements whose emitter branch is deeper than their parser branch are exactly the four of the finding *)
-Theorem C11_fat_statements_pinned : fat_leaves parse_stage emit_stage = known_fat.
-Proof. exact nest_fat_leaves_pinned. Qed.
-Print Assumptions C11_fat_statements_pinned.
-
-(* guard: the program avoids the four fat statements (F-C11-emit-stack-window) *)
-Theorem C11_nesting_never_crashes_emit_partial : forall room p,
-  (forall l, In l (leaves_of_list p) -> (l < length (st_leaf emit_stage))%nat /\ ~ In l known_fat) ->
-  pipeline parse_stage emit_stage room p <> 2.
-Proof. exact nest_pipeline_clean_partial. Qed.
-Print Assumptions C11_nesting_never_crashes_emit_partial.
-
-Theorem C11_accepted_nesting_is_emitted_current_source_partial : forall room p,
-  (forall l, In l (leaves_of_list p) -> (l < length (st_leaf emit_stage))%nat /\ ~ In l known_fat) ->
-  fits parse_stage room p = true -> fits emit_stage room p = true.
-Proof. exact nest_accepted_fits_partial. Qed.
-Print Assumptions C11_accepted_nesting_is_emitted_current_source_partial.
-
-(* without the guard the statement is false on the current source: 75 x `if` around rgb.off(), 80 frames of room *)
-Theorem C11_nesting_never_crashes_emit_refuted : exists room p, pipeline parse_stage emit_stage room p = 2.
-Proof. exact nest_emit_window_refuted. Qed.
-Print Assumptions C11_nesting_never_crashes_emit_refuted.
-
-Example C11_fat_window_is_one_level :
-  pipeline parse_stage emit_stage 80 [ladder 0 74 55] = 0 /\ pipeline parse_stage emit_stage 80 [ladder 0 76 55] = 1.
-Proof. exact nest_window_one_level. Qed.
-Print Assumptions C11_fat_window_is_one_level.
-
-Example C11_nesting_guard_inhabited :
-  pipeline parse_stage emit_stage 80 [ladder 0 75 1; Block 4 [Block 5 [Leaf 6; Leaf 30]; Leaf 19]] = 0
-  /\ pipeline parse_stage emit_stage 80 [ladder 0 76 1] = 1
-  /\ (forall l, In l (leaves_of_list [ladder 0 75 1; Block 4 [Block 5 [Leaf 6; Leaf 30]; Leaf 19]]) ->
-        (l < length (st_leaf emit_stage))%nat /\ ~ In l known_fat).
-Proof. exact nest_guard_inhabited. Qed.
-Print Assumptions C11_nesting_guard_inhabited.
-
-(* NECESSITY, for every pair of tables: one frame more per level than parse, in any slot, crashes on some accepted ladder
-   around any simple statement - so the dominance obligation above is not an artefact of the proof *)
+(* NECESSITY of the guard, for every pair of tables: one frame more per level than parse, in any slot, fails on some accepted
+   ladder around any simple statement - an internal error without the guard, a clean ValueError with it (the shape of a
+   refactoring that moves a recursive _emit_block call into a helper) *)
 Theorem C11_extra_frame_per_level_opens_window : forall ps es k l extra,
   (k < length (st_frames es))%nat -> 0 < extra ->
   0 <= getz (st_frames ps) k -> getz (st_frames ps) k <= getz (st_frames es) k ->
-  exists d room, pipeline ps (bump_frames es k extra) room [ladder k d l] = 2.
+  exists d room, pipeline false ps (bump_frames es k extra) room [ladder k d l] = 2
+                 /\ pipeline true ps (bump_frames es k extra) room [ladder k d l] = 3.
 Proof. exact extra_frame_opens_window. Qed.
 Print Assumptions C11_extra_frame_per_level_opens_window.
 
-(* ... in particular on the current source: a recursive _emit_block call moved into a helper (any of the seven inner slots) *)
-Theorem C11_helper_frame_opens_window_current_source : forall k l extra, (k < 7)%nat -> 0 < extra ->
-  exists d room, pipeline parse_stage (bump_frames emit_stage k extra) room [ladder k d l] = 2.
-Proof. exact nest_helper_frame_opens_window. Qed.
-Print Assumptions C11_helper_frame_opens_window_current_source.
+(* non-vacuity, on a pair of tables that does not depend on the source (two slots, three statements, the third two frames
+   deeper in emit than in parse): dominated tables; the window (levels 8 and 9 of 10 frames) with and without the guard; a
+   thin tree at the acceptance boundary; the hypotheses of the necessity theorem *)
+Example C11_toy_tables :
+  blocks_dominated toy_ps toy_es = true /\ thin toy_ps toy_es 0 = true /\ thin toy_ps toy_es 1 = true /\ thin toy_ps toy_es 2 = false.
+Proof. exact toy_tables. Qed.
+Print Assumptions C11_toy_tables.
+
+Example C11_toy_window :
+  pipeline true toy_ps toy_es 10 [ladder 0 7 2] = 0 /\
+  pipeline true toy_ps toy_es 10 [ladder 0 8 2] = 3 /\ pipeline true toy_ps toy_es 10 [ladder 0 9 2] = 3 /\
+  pipeline false toy_ps toy_es 10 [ladder 0 8 2] = 2 /\ pipeline false toy_ps toy_es 10 [ladder 0 9 2] = 2 /\
+  pipeline true toy_ps toy_es 10 [ladder 0 10 2] = 1 /\ pipeline false toy_ps toy_es 10 [ladder 0 10 2] = 1.
+Proof. exact toy_window. Qed.
+Print Assumptions C11_toy_window.
+
+Example C11_toy_thin_tree_yields_firmware :
+  let p := [ladder 0 9 1; Block 1 [Leaf 0; Block 0 [Leaf 1]; Leaf 1]] in
+  (forall l, In l (leaves_of_list p) -> thin toy_ps toy_es l = true) /\ fits toy_ps 10 p = true /\ pipeline true toy_ps toy_es 10 p = 0
+  /\ fits toy_ps 9 p = false.
+Proof. exact toy_thin_tree_yields_firmware. Qed.
+Print Assumptions C11_toy_thin_tree_yields_firmware.
+
+Example C11_toy_extra_frame : exists d room,
+  pipeline false toy_ps (bump_frames toy_es 0 1) room [ladder 0 d 0] = 2 /\ pipeline true toy_ps (bump_frames toy_es 0 1) room [ladder 0 d 0] = 3.
+Proof. exact toy_extra_frame. Qed.
+Print Assumptions C11_toy_extra_frame.
